@@ -194,8 +194,15 @@ pub fn run(ctx: &Ctx) -> Report {
     let relations = world.relations();
     let mut subjects: Vec<(String, Arc<Relation>)> = vec![];
     let step = ctx.tier.pick(3, 1);
-    for (i, g) in queries(ctx.tier).into_iter().enumerate() {
-        if i % step != 0 {
+    let mut all = crate::sqlgen::queries_plus_depth(ctx.tier, ctx.tier.pick(1, 3));
+    if ctx.tier == Tier::Quick {
+        // plus the inner joins of a depth-2 join with a base table (either side): nested joins are where a
+        // sub-tree has several derivations with the same output label and different scores
+        all.extend(crate::sqlgen::composed(3).into_iter().filter(|g| g.term.as_ref().map_or(false, |t| t.starts_with("J.inner.eq.s1(") && t.contains("(J.") || t.starts_with("J.inner.eq.s1(") && t.contains(", J."))));
+    }
+    // quick: every third hand-written query and every composed term of depth 1; thorough: everything (depth 3)
+    for (i, g) in all.into_iter().enumerate() {
+        if i % step != 0 && g.term.is_none() {
             continue;
         }
         if let Ok(Ok(rel)) = guarded(|| parse(&g.sql).map_err(|e| e.to_string()).and_then(|q| Relation::try_from(q.with(&relations)).map_err(|e| e.to_string()))) {
